@@ -157,6 +157,8 @@ def _extract_impl(src, imp, it, log, where):
         if name in methods:
             seen.add(name)
             out.append(_transform_fn(fitem, methods[name], log, where + "::" + name))
+        elif it.get("keep_others"):
+            out.append(fitem.text_no_attrs)
         else:
             dropped.append(name)
         pos = fitem.end
@@ -187,7 +189,7 @@ def _extract_item(snapshot, it, log):
     except rsitems.AnchorLost as e:
         raise Unsupported("anchor lost: %s" % e)
     origin_line = item.line
-    if kind == "impl" and "methods" in it:
+    if kind in ("impl", "trait") and "methods" in it:
         return _extract_impl(src, item, it, log, where), origin_line
     csc = it.get("call_site_check")
     if csc:
@@ -229,6 +231,16 @@ def _widen_visibility(text, log, where):
             if depth == (1 if is_impl else 0):
                 lines[i] = m.group(1) + "pub " + ln[len(m.group(1)):]
                 k += 1
+    # private named fields of an extracted struct
+    if re.match(r"\s*(#\[[^\]]*\]\s*)*pub\s+struct\b", "\n".join(lines)):
+        depth = 0
+        for i, ln in enumerate(lines):
+            if depth == 1 and re.match(r"^\s*[a-z_]\w*\s*:", ln):
+                ind = re.match(r"^(\s*)", ln).group(1)
+                lines[i] = ind + "pub " + ln[len(ind):]
+                k += 1
+            ml = rsitems.mask(ln)
+            depth += ml.count("{") - ml.count("}")
     if k:
         log.append({"rule": "X9", "site": where, "pattern": "private item", "replacement": "pub", "count": k})
     return "\n".join(lines)
@@ -254,7 +266,7 @@ def build_unit(snapshot, unit):
             fns.append({"fn": it["name"], "file": it["file"], "line": line, "impl": it.get("impl"),
                         "contract": " ".join(it.get("contract", "").split()),
                         "raw_contract": it.get("contract", ""), "props": it.get("props")})
-        if it["kind"] == "impl" and "methods" in it:
+        if it["kind"] in ("impl", "trait") and "methods" in it:
             for mname, ms in it["methods"].items():
                 if ms.get("drop_body"):
                     continue
